@@ -100,7 +100,7 @@ def unit_geometry(j):
         base = 'C11/geometry=%d/%s' % (j, typ)
         hy = [gam > 1, om < j] + list(p.pc)
         xg2 = sp.sympify(A['xg2']); gpogm = sp.sympify(A['gpogm']); gm1 = gam - 1
-        kw_w = {'standard': {'geometry': j, 'gamma': 1.4, 'omega': 0.0, 'rho0': 1.3, 'eblast': 0.7}, 'vacuum': {'geometry': j, 'gamma': 1.4, 'omega': {1: 0.9, 2: 1.9, 3: 2.8}[j], 'rho0': 1.3, 'eblast': 0.7},
+        kw_w = {'standard': {'geometry': j, 'gamma': 1.4, 'omega': {1: 0.3, 2: 0.5, 3: 1.0}[j], 'rho0': 1.3, 'eblast': 0.7}, 'vacuum': {'geometry': j, 'gamma': 1.4, 'omega': {1: 0.9, 2: 1.9, 3: 2.8}[j], 'rho0': 1.3, 'eblast': 0.7},
                 'singular': {'geometry': j, 'gamma': 1.4, 'omega': (3 * j - 2 + 1.4 * (2 - j)) / 2.4, 'rho0': 1.3, 'eblast': 0.7}}[typ]
         nat = NATIVE % dict(kw=kw_w, t=0.8, tol=2e-3)
         def fin(o_):
